@@ -279,8 +279,12 @@ def alias_e2e(binpath, res, seed, n):
     pool = ["ed2", "ed3", "edp1", "ec-b", "rsa-2048-a"]
     for i in range(n):
         k1, k2 = rng.sample(pool, 2)
-        mode = rng.choice(["control", "sig_labelled_k1", "honest_label_k2", "inner_keyid_lies", "table_has_both"])
+        mode = rng.choice(["control", "sig_labelled_k1", "honest_label_k2", "inner_keyid_lies", "table_has_both", "both_authorised"])
         step = scen.mk_step("build", 1, [W.kid(k1)], [], [["ALLOW", "*"]], [["ALLOW", "*"]])
+        if mode == "both_authorised":
+            # K1 and K2 are both functionaries of a threshold-2 step; only K2 signs.  The file named for K1 carries K2's
+            # signature once under K1's label and once under K2's own: nothing may be checked against, or counted for, K1
+            step = scen.mk_step("build", 2, [W.kid(k1), W.kid(k2)], [], [["ALLOW", "*"]], [["ALLOW", "*"]])
         pub2 = W.pub(k2)
         if mode == "control":
             table = {W.kid(k1): W.pub(k1)}
@@ -289,6 +293,8 @@ def alias_e2e(binpath, res, seed, n):
             table = {W.kid(k1): pub2}
         elif mode == "table_has_both":
             table = {W.kid(k1): pub2, W.kid(k2): W.pub(k2)}
+        elif mode == "both_authorised":
+            table = {W.kid(k1): W.pub(k1), W.kid(k2): W.pub(k2)}
         else:
             table = {W.kid(k1): pub2}
         layout = scen.mk_layout(W, [], [step], [], keys=table)
@@ -306,7 +312,14 @@ def alias_e2e(binpath, res, seed, n):
             fname = f"build.{W.pfx(k2)}.link"
         else:
             fname = f"build.{W.pfx(k1)}.link"
-        cases.append(scen.verify_case(lw, [[W.kid("ed0"), W.pub("ed0")]], {fname: scen.dumps(link)},
+        files = {fname: scen.dumps(link)}
+        if mode == "both_authorised":
+            own = copy.deepcopy(link)
+            s2 = own["signatures"][0]
+            link["signatures"] = rng.choice([[dict(s2, keyid=W.kid(k1)), s2], [s2, dict(s2, keyid=W.kid(k1))], [dict(s2, keyid=W.kid(k1))],
+                                             [{"keyid": W.kid(k1), "sig": "00" * 64}, s2]])
+            files = {f"build.{W.pfx(k1)}.link": scen.dumps(link), f"build.{W.pfx(k2)}.link": scen.dumps(own)}
+        cases.append(scen.verify_case(lw, [[W.kid("ed0"), W.pub("ed0")]], files,
                                       meta={"mode": mode, "expect": "accept" if mode == "control" else "reject"}))
     obs = common.run_batch(binpath, cases)
     for c, o in zip(cases, obs):
@@ -345,6 +358,6 @@ def main(ctx):
         assumptions=["OpenSSL's SubjectPublicKeyInfo encodings are the standards-conformant reference", "olpc_canon + SHA-256 (Python) is the independent key-id computation"],
         required=["keytype:ed25519", "keytype:ecdsa", "keytype:rsa", "path:ed25519:spki", "path:ed25519:pk8", "path:ecdsa:spki",
                   "path:rsa:pem", "path:rsa:json", "spki_reexport_identical:rsa", "spki_reexport_identical:ed25519",
-                  "spki_reexport_identical:ecdsa", "key_table:parsed", "alias_e2e:control", "alias_e2e:sig_labelled_k1",
+                  "spki_reexport_identical:ecdsa", "key_table:parsed", "alias_e2e:control", "alias_e2e:sig_labelled_k1", "alias_e2e:both_authorised",
                   "alias_e2e_observed:accept", "alias_e2e_observed:reject"],
         min_evals=300)
